@@ -271,7 +271,11 @@ def svd_truncated(
     if renorm:
         raise NotImplementedError("renorm not implemented yet.")
 
-    if cutoff > 0.0:
+    if not s.blocks:
+        # no stored blocks (the zero matrix): nothing to truncate
+        sub_max_bonds = ()
+
+    elif cutoff > 0.0:
         # first combine all singular values into a single, sorted array
         sall = s.to_dense()
         sall = ar.do("sort", sall, like=backend)
